@@ -104,7 +104,7 @@ def _is_copy_of_param(f, op, n, depth=0):
 
 
 def run(prog):
-    res = RuleResult("R-DEPTH", "the parser's recursion depth is bounded by explicit guards (reader, actions, templates, variables)", floor=8)
+    res = RuleResult("R-DEPTH", "the parser's recursion depth is bounded by explicit guards (reader, actions, templates, variables)", floor=6)
 
     # ---- 1. reader
     f = prog.fn_opt(KP + "sexpr::parse_with")
@@ -270,6 +270,25 @@ def run(prog):
                      "check_vars_are_not_cyclic has fewer than two bound tests that leave with an error (length of a chain of references, "
                      "list nesting of the resolved value): resolving a variable recurses once per link of the chain, and the walkers "
                      "that resolve variables (push-msg, cmd, concat) once per level of that nesting")
+    # ---- 4b. variables: a reference back to a variable that is still being visited is an error
+    f4 = prog.fn_opt(KP + "check_vars_are_not_cyclic")
+    if f4 is not None:
+        from kq.analysis import discr_switches
+        okc = False
+        for sw in discr_switches(prog, f4):
+            if not (sw.adt or "").endswith("::Visit") or "InProgress" not in sw.arms:
+                continue
+            tgt = sw.arms["InProgress"]
+            others = [b for v, b in sw.arms.items() if v != "InProgress"] + ([sw.otherwise] if sw.otherwise is not None else [])
+            if _reaches_err_return(f4, tgt, avoid=others):
+                okc = True
+        res.inst("variables/cycle-detected", where=f4.loc, ok=okc)
+        res.oblige(okc)
+        if not okc:
+            res.viol("variables/cycle-detected", f4.loc,
+                     "check_vars_are_not_cyclic no longer leaves with an error when the walk over the references comes back to a variable "
+                     "that is still being visited: a variable that refers to itself is accepted, and resolving it recurses for ever")
+
     # ---- 5. aliases: a reference adds the nesting of the alias's action
     f = prog.fn_opt(KP + "parse_action_atom")
     if f is None:
